@@ -1431,6 +1431,11 @@ func loadViewFromJsonLinesFile(ctx context.Context, flags *option.Flags, fp *fil
 				break
 			}
 
+			if row == nil {
+				// blank line, e.g. the ending line break csvq itself appends on commit
+				continue
+			}
+
 			rowObj, ok := row.(txjson.Object)
 			if !ok {
 				err = NewJsonLinesStructureError(expr)
